@@ -343,3 +343,44 @@ func (r *sRec) recordBadS2(st sStats, pkts []sPkt) sStats {
 	}
 	return st
 }
+
+// ---- S3 -----------------------------------------------------------------------------------------------------------------
+
+func (r *sRec) recordGoodS3(st sStats, pkts []sPkt) sStats {
+	for _, p := range pkts {
+		mine := false
+		for _, s := range p.SSRCs() {
+			if s == r.ssrc {
+				mine = true
+			}
+		}
+		if x, ok := p.(*sNack); ok && mine && x.media == r.ssrc {
+			st.Nacks++
+		}
+	}
+	return st
+}
+
+// recordBadS3 decides once whether to skip and lets packets without destination inherit the previous decision.
+func (r *sRec) recordBadS3(st sStats, pkts []sPkt) sStats {
+	var skip bool
+	for _, p := range pkts {
+		if _, isXR := p.(*sXR); !isXR {
+			skip = true
+			for _, s := range p.SSRCs() {
+				if s == r.ssrc {
+					skip = false
+				}
+			}
+		}
+		if skip {
+			continue
+		}
+		if x, ok := p.(*sNack); ok && x.media == r.ssrc {
+			st.Nacks++
+		} else {
+			st.internal++
+		}
+	}
+	return st
+}
